@@ -48,74 +48,122 @@ Ltac open_flush H C :=
   destruct (take_rows _ _ _) as [taken used] eqn:T.
 
 (* ---------- C17 ---------- *)
-(* promotion: at the flush of the predecessor's second terminal frame (shutdown = 1) the
-   successor inherits the priority, is pushed (with sync) and the predecessor leaves for good *)
-Theorem flush_promotes s b nrows rmf np s' qb :
-  step s (CT_FLUSHBAR b 1 nrows rmf np false) = Some s' -> cycle_err s = false ->
-  lookup b (queue s) = Some qb ->
-  (exists wd ht rows n pc pushes rows' n',
-      ph s = Rendering wd ht rows n pc pushes /\
-      ph s' = Rendering wd ht rows' n' pc (pushes ++ [(qb, true)])) /\
-  prio_of s' qb = prio_of s b /\
-  lookup b (queue s') = None /\
-  In b (retired s').
+Lemma successors_In b q x : In x (successors b q) <-> In (b, x) q.
 Proof.
-  intros H C Q. open_flush H C. cbn [Z.eqb Pos.eqb] in H. simp_state. rewrite Q in H.
-  destruct (lookup qb (bars s)) as [rq|] eqn:Lq; [|discriminate].
-  inversion H; subst; clear H. simp_state. repeat split.
-  - do 8 eexists. split; reflexivity.
-  - unfold prio_of. simp_state. rewrite lookup_update_same. cbn. rewrite L. reflexivity.
-  - clear. induction (queue s) as [|[k v] m IH]; cbn; [reflexivity|].
-    destruct (Z.eqb_spec b k); [exact IH|]. cbn. destruct (Z.eqb_spec b k); [contradiction|exact IH].
-  - left; reflexivity.
+  induction q as [|[k v] q IH]; cbn [successors In]; [tauto|].
+  destruct (Z.eqb_spec b k) as [->|N].
+  - cbn [In]. rewrite IH. split; [intros [->|I]; auto|intros [E|I]; [inversion E; auto|auto]].
+  - rewrite IH. split; [auto|intros [E|I]; [inversion E; congruence|auto]].
 Qed.
 
-(* the queue changes only by a promotion (flush with shutdown = 1 of the key) or by an Add
-   that parks a bar behind the key *)
+Lemma successors_remove_key b q : successors b (remove_key b q) = [].
+Proof.
+  induction q as [|[k v] q IH]; cbn [remove_key]; [reflexivity|].
+  destruct (Z.eqb_spec b k); [exact IH|]. cbn [successors]. destruct (Z.eqb_spec b k); [contradiction|exact IH].
+Qed.
+
+Lemma In_remove_key a b x (q : list (Z * Z)) : a <> b -> In (a, x) q -> In (a, x) (remove_key b q).
+Proof.
+  intros N. induction q as [|[k v] q IH]; cbn [remove_key In]; [auto|].
+  destruct (Z.eqb_spec b k) as [->|Nk]; intros [E|I]; auto.
+  - inversion E; congruence.
+  - left; exact E.
+  - right; auto.
+Qed.
+
+Lemma In_remove_key_inv a b x (q : list (Z * Z)) : In (a, x) (remove_key b q) -> In (a, x) q /\ a <> b.
+Proof.
+  induction q as [|[k v] q IH]; cbn [remove_key In]; [tauto|].
+  destruct (Z.eqb_spec b k) as [->|Nk].
+  - intros I. destruct (IH I). auto.
+  - intros [E|I]; [inversion E; subst; split; [left; reflexivity|congruence]|destruct (IH I); auto].
+Qed.
+
+Lemma promote_bars_in qb p qbs : forall bs, In qb qbs -> lookup qb bs <> None ->
+  exists r, lookup qb (promote_bars bs qbs p) = Some r /\ br_prio r = p.
+Proof.
+  induction qbs as [|q qbs IH]; intros bs I L; [destruct I|]. cbn [promote_bars].
+  destruct (in_dec Z.eq_dec qb qbs) as [I'|N].
+  - apply IH; [exact I'|]. destruct (lookup q bs); [apply lookup_update_known; exact L|exact L].
+  - destruct I as [->|I]; [|contradiction]. rewrite promote_bars_other by exact N.
+    destruct (lookup qb bs) as [r|] eqn:E; [|congruence]. rewrite lookup_update_same. eexists; split; reflexivity.
+Qed.
+
+(* release: at the flush of the predecessor's second terminal frame (shutdown = 1) EVERY bar parked behind it inherits
+   its priority and is pushed (with sync), in the order they were parked; the predecessor leaves for good and is
+   recorded as released with the priority it had *)
+Theorem flush_releases_all pm am dm evs s b nrows rmf np s' :
+  run (init_cst pm am dm) evs = Some s ->
+  step s (CT_FLUSHBAR b 1 nrows rmf np false) = Some s' -> cycle_err s = false ->
+  let qbs := successors b (queue s) in
+  (qbs <> [] ->
+     (exists wd ht rows n pc pushes rows' n',
+        ph s = Rendering wd ht rows n pc pushes /\
+        ph s' = Rendering wd ht rows' n' pc (pushes ++ map (fun qb => (qb, true)) qbs)) /\
+     In b (retired s')) /\
+  (forall qb, In qb qbs -> prio_of s' qb = prio_of s b) /\
+  successors b (queue s') = [] /\
+  lookup b (released s') = Some (prio_of s b).
+Proof.
+  intros R H C qbs. pose proof (reachable_Inv _ _ _ _ _ R) as Iv.
+  assert (Kq : forall qb, In qb qbs -> lookup qb (bars s) <> None /\ qb <> b).
+  { intros qb I. pose proof (In_successors _ _ _ I) as Iq. split.
+    - apply (inv_known _ Iv). unfold places. do 4 (apply in_or_app; right). apply in_or_app; left. exact Iq.
+    - intros ->. pose proof (inv_uniq _ Iv b) as U. rewrite places_cnt in U.
+      apply cnt_In in Iq. unfold step in H. destruct (ph s); try discriminate. destruct (lookup b (bars s)); [|discriminate].
+      destruct (br_frame b0); [|discriminate]. destruct (popped s) as [|p1 rest]; [discriminate|].
+      destruct (Z.eqb_spec b p1); [|discriminate]. subst. cbn [cnt] in U. rewrite Z.eqb_refl in U. lia. }
+  open_flush H C. cbn [Z.eqb Pos.eqb] in H. simp_state. fold qbs in H.
+  assert (Pb : prio_of s b = br_prio r) by (unfold prio_of; rewrite L; reflexivity).
+  destruct qbs as [|q0 qr] eqn:Eq.
+  - repeat split; try congruence; try (intros ? []).
+    + destruct (pop_mode s && negb np); [|destruct (negb rmf)]; inversion H; subst; simp_state; exact Eq.
+    + destruct (pop_mode s && negb np); [|destruct (negb rmf)]; inversion H; subst; simp_state;
+        cbn [lookup]; rewrite Z.eqb_refl, Pb; reflexivity.
+  - inversion H; subst; clear H. simp_state. repeat split.
+    + do 8 eexists. split; reflexivity.
+    + left; reflexivity.
+    + intros qb I. destruct (Kq qb I) as [Lq Nb]. unfold prio_of. simp_state.
+      match goal with |- context [promote_bars ?bs0 _ _] =>
+        destruct (promote_bars_in qb (br_prio r) (q0 :: qr) bs0 I) as (r' & -> & ->); [apply lookup_update_known; exact Lq|] end.
+      rewrite L. reflexivity.
+    + apply successors_remove_key.
+    + cbn [lookup]. rewrite Z.eqb_refl, Pb. reflexivity.
+Qed.
+
+(* a parked bar stays parked behind its predecessor until the flush of that predecessor's second terminal frame; no
+   Add disturbs it *)
 Theorem queue_stable s e s' a x :
-  step s e = Some s' -> lookup a (queue s) = Some x ->
-  lookup a (queue s') = Some x \/
-  (exists nrows rmf np, e = CT_FLUSHBAR a 1 nrows rmf np false) \/
-  (exists b id prio tot ex rmf np tr xr xv, e = CT_ADD b id prio tot ex (Some a) rmf np tr xr xv).
+  step s e = Some s' -> In (a, x) (queue s) ->
+  In (a, x) (queue s') \/ (exists nrows rmf np, e = CT_FLUSHBAR a 1 nrows rmf np false).
 Proof.
   intros H Q.
   destruct e; try (left; break_step H; use_fifo_pop; simp_state; try assumption;
                    repeat match goal with |- context [if ?c then _ else _] => destruct c end; simp_state; assumption).
   - (* CT_ADD *)
-    destruct after as [a'|].
-    + destruct (Z.eq_dec a' a) as [->|N]; [right; right; do 10 eexists; reflexivity|].
-      left. break_step H; simp_state.
-      clear - Q N. induction (queue s) as [|[k v] m IH]; cbn in *; [discriminate|].
-      destruct (Z.eqb_spec a' k); cbn.
-      * subst. destruct (Z.eqb_spec a k); [congruence|assumption].
-      * destruct (Z.eqb_spec a k); [assumption|auto].
-    + left. break_step H; simp_state; assumption.
+    left. break_step H; simp_state; try assumption. apply in_or_app; left; assumption.
   - (* CT_FLUSHBAR *)
     destruct (Z.eq_dec b a) as [->|N].
     + destruct err.
       * left. break_step H; simp_state; try assumption;
           repeat match goal with |- context [if ?c then _ else _] => destruct c end; simp_state; assumption.
-      * destruct (Z.eq_dec shutdown 1) as [->|N1]; [right; left; eauto|].
+      * destruct (Z.eq_dec shutdown 1) as [->|N1]; [right; eauto|].
         left. break_step H; simp_state; try assumption;
           repeat match goal with |- context [if ?c then _ else _] => destruct c end; simp_state; try assumption.
         all: match goal with E : (_ =? 1) = true |- _ => apply Z.eqb_eq in E; contradiction end.
     + left. break_step H; simp_state; try assumption;
         repeat match goal with |- context [if ?c then _ else _] => destruct c end; simp_state; try assumption.
-      all: clear - Q N; induction (queue s) as [|[k v] m IH]; cbn in *; [discriminate|];
-        destruct (Z.eqb_spec b k); cbn; [subst; destruct (Z.eqb_spec a k); [congruence|auto]|];
-        destruct (Z.eqb_spec a k); [assumption|auto].
+      all: apply In_remove_key; [congruence|assumption].
 Qed.
 
 (* a parked successor is nowhere it could be drawn from *)
 Theorem successor_hidden p a d evs s pre x :
-  run (init_cst p a d) evs = Some s -> lookup pre (queue s) = Some x ->
+  run (init_cst p a d) evs = Some s -> In (pre, x) (queue s) ->
   ~ In x (heap s) /\ ~ In x (popped s) /\ ~ In x (fifo_pushes (fifo s)) /\ ~ In x (ph_pushes (ph s)) /\ ~ In x (retired s).
 Proof.
   intros R Q. pose proof (reachable_Inv _ _ _ _ _ R) as I. pose proof (inv_uniq _ I x) as U.
   rewrite places_cnt in U.
-  assert (Hq : In x (map snd (queue s))).
-  { clear - Q. induction (queue s) as [|[k v] m IH]; cbn in *; [discriminate|].
-    destruct (pre =? k); [inversion Q; auto|auto]. }
+  assert (Hq : In x (map snd (queue s))) by (apply (in_map snd) in Q; exact Q).
   apply cnt_In in Hq. repeat split; intros Hin; apply cnt_In in Hin; lia.
 Qed.
 
@@ -141,7 +189,7 @@ Qed.
    puts it back; nothing is counted as popped yet *)
 Theorem flush_pop_assign s b nrows rmf s' :
   step s (CT_FLUSHBAR b 1 nrows rmf false false) = Some s' -> cycle_err s = false ->
-  lookup b (queue s) = None -> pop_mode s = true ->
+  successors b (queue s) = [] -> pop_mode s = true ->
   prio_of s' b = pop_prio s /\ pop_prio s' = pop_prio s + 1 /\
   (exists wd ht rows n pc pushes rows' n',
       ph s = Rendering wd ht rows n pc pushes /\ ph s' = Rendering wd ht rows' n' pc (pushes ++ [(b, false)])) /\
@@ -170,7 +218,7 @@ Qed.
 
 (* a no-pop bar that is not removed on completion keeps its priority and goes back, whatever the frame *)
 Theorem flush_nopop_stays s b sh nrows s' :
-  step s (CT_FLUSHBAR b sh nrows false true false) = Some s' -> cycle_err s = false -> lookup b (queue s) = None ->
+  step s (CT_FLUSHBAR b sh nrows false true false) = Some s' -> cycle_err s = false -> successors b (queue s) = [] ->
   prio_of s' b = prio_of s b /\ retired s' = retired s /\ pop_prio s' = pop_prio s /\
   (exists wd ht rows n pc pushes rows' n',
       ph s = Rendering wd ht rows n pc pushes /\ ph s' = Rendering wd ht rows' n' pc (pushes ++ [(b, false)])).
@@ -260,29 +308,78 @@ Proof.
     rewrite lookup_update_same in Lr'; inversion Lr'; subst; inversion Lr; subst; exact K.
 Qed.
 
-(* ---------- a successor created after its predecessor has left ---------- *)
-Definition parks_behind (pre : Z) (e : ev) : bool :=
-  match e with CT_ADD _ _ _ _ _ (Some a) _ _ _ _ _ => a =? pre | _ => false end.
-
+(* ---------- a bar queued after a bar that has already been released ---------- *)
 Lemma run_snoc s0 evs s e s1 : run s0 evs = Some s -> step s e = Some s1 -> run s0 (evs ++ [e]) = Some s1.
 Proof. unfold run. intros R E. rewrite fold_left_opt_app, R. cbn. rewrite E. reflexivity. Qed.
 
-(* if the predecessor has already left for good, no event ever promotes the parked bar: it stays
-   parked (hidden, by [successor_hidden]) in every continuation that parks no other bar behind the same
-   predecessor — and such an Add would only overwrite it *)
-Theorem late_successor_stays_parked p a d evs' : forall evs s s' pre x,
-  run (init_cst p a d) evs = Some s -> lookup pre (queue s) = Some x -> In pre (retired s) ->
-  run s evs' = Some s' -> forallb (fun e => negb (parks_behind pre e)) evs' = true ->
-  lookup pre (queue s') = Some x /\ In pre (retired s').
+(* nobody is parked behind a released bar: every parked bar still has the release of its predecessor ahead of it *)
+Definition Parked (s : cst) : Prop := forall a x, In (a, x) (queue s) -> lookup a (released s) = None.
+
+Lemma step_Parked s e s' : step s e = Some s' -> Parked s -> Parked s'.
 Proof.
-  induction evs' as [|e evs' IH]; intros evs s s' pre x R Q I; unfold run; cbn.
-  - intros E _; inversion E; subst; auto.
-  - destruct (step s e) as [s1|] eqn:E; [|discriminate]. intros R' F. apply andb_prop in F as [Fe F].
-    apply (IH (evs ++ [e]) s1 s' pre x); auto.
-    + eapply run_snoc; eauto.
-    + destruct (queue_stable _ _ _ _ _ E Q) as [K|[(nr & rmf & np & ->)|(b & id & pr & tot & ex & rmf & np & tr & xr & xv & ->)]].
-      * exact K.
-      * rewrite (retired_never_flushed _ _ _ _ _ _ _ _ _ _ _ R I) in E. discriminate.
-      * cbn in Fe. rewrite Z.eqb_refl in Fe. discriminate.
-    + eapply retired_mono; eauto.
+  intros H P a x.
+  destruct e; try (break_step H; use_fifo_pop; simp_state; try (apply P; fail);
+                   repeat match goal with |- context [if ?c then _ else _] => destruct c end; simp_state; apply P).
+  - (* CT_ADD *)
+    break_step H; simp_state; try apply P.
+    intros I. apply in_app_or in I as [I|[E|[]]]; [apply P in I; exact I|]. inversion E; subst. assumption.
+  - (* CT_FLUSHBAR *)
+    break_step H; simp_state; try apply P;
+      repeat match goal with |- context [if ?c then _ else _] => destruct c end; simp_state; try apply P.
+    all: intros I; cbn [lookup]; destruct (Z.eqb_spec a b) as [->|N].
+    all: try (apply In_remove_key_inv in I; destruct I as [I Nb]; try congruence).
+    all: try (apply (P a x); exact I).
+    all: match goal with E : successors ?bb (queue ?ss) = [], I : In (?bb, ?xx) (queue ?ss) |- _ =>
+           apply (proj2 (successors_In bb (queue ss) xx)) in I; rewrite E in I; destruct I end.
+Qed.
+
+Theorem parked_behind_unreleased p a d evs s pre x :
+  run (init_cst p a d) evs = Some s -> In (pre, x) (queue s) -> lookup pre (released s) = None.
+Proof.
+  unfold run. assert (P0 : Parked (init_cst p a d)) by (intros ? ? []). revert P0. generalize (init_cst p a d).
+  induction evs as [|e evs IH]; cbn; intros s0 P0 H.
+  - inversion H; subst. apply P0.
+  - destruct (step s0 e) as [s1|] eqn:E; [|discriminate]. apply (IH s1); [eapply step_Parked; eauto|exact H].
+Qed.
+
+(* a bar queued after a released bar is not parked: its push request (with sync) is sent by the same closure, and it takes
+   the priority the predecessor had when it was released; the bars already parked are not disturbed *)
+Theorem late_successor_pushed_at_once s b id prio tot ex a rmf np tr xr xv pa s' :
+  step s (CT_ADD b id prio tot ex (Some a) rmf np tr xr xv) = Some s' -> lookup a (released s) = Some pa ->
+  replace_last_op (fifo s) [QPush b true] = Some (fifo s') /\ prio_of s' b = pa /\ queue s' = queue s /\
+  released s' = released s.
+Proof.
+  intros H Lr. break_step H; simp_state; try congruence.
+  match goal with E : lookup a (released s) = Some ?z |- _ =>
+    tryif constr_eq z pa then fail else (assert (z = pa) by congruence; subst z) end.
+  repeat split; try assumption. unfold prio_of. simp_state. rewrite lookup_update_same. reflexivity.
+Qed.
+
+(* ... and a bar queued after a bar that is not released yet is parked after the bars already parked there *)
+Theorem early_successor_parked s b id prio tot ex a rmf np tr xr xv s' :
+  step s (CT_ADD b id prio tot ex (Some a) rmf np tr xr xv) = Some s' -> lookup a (released s) = None ->
+  queue s' = queue s ++ [(a, b)] /\ replace_last_op (fifo s) [] = Some (fifo s') /\ heap s' = heap s.
+Proof.
+  intros H Lr. break_step H; simp_state; try congruence. auto.
+Qed.
+
+(* a release is recorded once and for all: only another flush of the same bar's second terminal frame could change it *)
+Theorem released_stable s e s' a pa :
+  step s e = Some s' -> lookup a (released s) = Some pa ->
+  lookup a (released s') = Some pa \/ (exists nrows rmf np, e = CT_FLUSHBAR a 1 nrows rmf np false).
+Proof.
+  intros H Q.
+  destruct e; try (left; break_step H; use_fifo_pop; simp_state; try assumption;
+                   repeat match goal with |- context [if ?c then _ else _] => destruct c end; simp_state; assumption).
+  destruct (Z.eq_dec b a) as [->|N].
+  - destruct err.
+    + left. break_step H; simp_state; try assumption;
+        repeat match goal with |- context [if ?c then _ else _] => destruct c end; simp_state; assumption.
+    + destruct (Z.eq_dec shutdown 1) as [->|N1]; [right; eauto|].
+      left. break_step H; simp_state; try assumption;
+        repeat match goal with |- context [if ?c then _ else _] => destruct c end; simp_state; try assumption.
+      all: match goal with E : (_ =? 1) = true |- _ => apply Z.eqb_eq in E; contradiction end.
+  - left. break_step H; simp_state; try assumption;
+      repeat match goal with |- context [if ?c then _ else _] => destruct c end; simp_state; try assumption.
+    all: cbn [lookup]; destruct (Z.eqb_spec a b); [congruence|assumption].
 Qed.
